@@ -6,6 +6,7 @@ set -u
 export GOFLAGS=-mod=mod GOPROXY=off GOSUMDB=off GOTOOLCHAIN=local; unset GOWORK
 cd /repo || exit 1
 for f in /verif/mutants/*/*.diff /verif/seeded/*/patch.diff /verif/benign/*.diff; do
+  case "$f" in */seeded/*) grep -q "\"retired\"" "$(dirname "$f")/meta.json" 2>/dev/null && continue;; esac
   git apply --check "$f" 2>/dev/null && continue
   tmp=$(mktemp -d /tmp/refresh-XXXXXX)
   rsync -a --exclude .git /repo/ "$tmp/"
